@@ -23,7 +23,8 @@ LEVEL_TEXT = ("Decided: the mechanism that makes names complete and distinct is 
               "their presolved names, short or absent name files fall back to generated names, and the "
               "scanner stays inside the file.  Not decided: uniqueness of the generated strings for every "
               "model (a value property: e.g. a user name that looks like a counted name)."
-              "  Also decided (added after the seeded rounds): every stored constraint's name is put into its node slot before names are derived.")
+              "  Also decided (added after the seeded rounds): every stored constraint's name is put into its node slot before names are derived."
+              "  Also decided (round 7): the cvt:names modes read the name files and install names as documented.")
 LEVEL_NOTE = "Trusted: clang 14 front end/CFG, tool/mpx.cc, the rule module."
 DESIGN_REF = "DESIGN.md section 4, C19"
 EXPLANATION = ("Units: the visitor flat-converter unit (VCString, links, PresolveNames, keepers), the model "
